@@ -3,7 +3,7 @@
 -/
 import Gts.Lemmas.PropsGen
 namespace Gts.PropsG
-open Gts.Gen
+open Gts.Gen Gts.Gen.PropsGo
 
 variable {σ : Type} [DecidableEq σ]
 
